@@ -480,10 +480,13 @@ class Interp:
         a = node.args
         names = [x.arg for x in a.posonlyargs + a.args]
         for i, nme in enumerate(names):
-            if i == 0 and self.fi.cls is not None:
+            bound = self.fi.cls is not None and not any(
+                getattr(d, "id", None) == "staticmethod"
+                for d in node.decorator_list)
+            if i == 0 and bound:
                 env[nme] = ("self",)
             else:
-                env[nme] = ("param", i - (1 if self.fi.cls is not None else 0))
+                env[nme] = ("param", i - (1 if bound else 0))
         if a.vararg:
             env[a.vararg.arg] = ("free", "*" + a.vararg.arg)
         if a.kwarg:
@@ -1066,6 +1069,16 @@ class Interp:
                 and self.depth < self.max_inline:
             return self.inline_call(self.m.functions[f[1]], None, (el,), (),
                                     None, node)
+        if f[0] == "attr" and f[1] == ("self",) and self.fi.cls is not None \
+                and self.depth < self.max_inline:
+            # map(self._helper, xs): the bound (or static) method, inline
+            cq = self.self_class or getattr(self.fi.cls, "qualname", None)
+            meth = self.m.lookup_method(cq, f[2]) if cq else None
+            if meth is not None and self.inline(meth):
+                decos = {getattr(d, "id", getattr(d, "attr", None))
+                         for d in meth.node.decorator_list}
+                recv = None if "staticmethod" in decos else f[1]
+                return self.inline_call(meth, recv, (el,), (), None, node)
         t = ("call", f, (el,), ())
         if not self.is_pure(f):
             self.path.effects.append(("call", t, node))
@@ -1757,7 +1770,8 @@ class Interp:
             if isinstance(e, ast.Call) and (self._exc_name(
                     e.func, env) in self.m.functions or (
                     isinstance(e.func, ast.Name) and e.func.id in env
-                    and env[e.func.id][0] == "closure")):
+                    and env[e.func.id][0] == "closure")
+                    or self._is_helper_method_call(e)):
                 # raise helper(...): the helper builds the exception
                 t = self.eval(e, env)
                 raise _Raise("dynamic:" + fmt(t), (t,), st)
@@ -1851,6 +1865,20 @@ class Interp:
         raise AnalysisError("statement %s outside the interpreter vocabulary "
                             "(%s:%d)" % (type(st).__name__, self.fi.qualname,
                                          st.lineno))
+
+    def _is_helper_method_call(self, call):
+        """`self._helper(...)` resolving to one repository method that is
+        executed inline (an exception-building helper)."""
+        if not isinstance(call.func, ast.Attribute):
+            return False
+        try:
+            cs = self.P.resolve_call(self.fstack[-1], call)
+        except Exception:
+            return False
+        repo = [c for c in cs if c.kind == "repo"]
+        return bool(repo) and len(repo) == len(cs) and all(
+            c.fn is repo[0].fn for c in repo) and self.inline(repo[0].fn) \
+            and not self._is_exception_class(repo[0].fn.qualname)
 
     def _exc_name(self, f, env):
         d = dotted(f)
